@@ -395,7 +395,10 @@ class Environment:
         for i in ('bfgdir', 'srcdir', 'builddir'):
             setattr(env, i, Path.from_json(data[i]).as_directory())
 
-        env.backend_version = Version(data['backend_version'])
+        # An undetected backend version is saved as the string 'None'.
+        backend_version = data['backend_version']
+        env.backend_version = (None if backend_version in (None, 'None') else
+                               Version(backend_version))
         env.install_dirs = {
             InstallRoot[k]: Path.from_json(v).as_directory() if v else None
             for k, v in data['install_dirs'].items()
